@@ -153,6 +153,27 @@ fn judge_ctor_as_function(src: &mut Src, st: &mut Stats) -> CheckResult {
     Ok(())
 }
 
+/// Known finding: `expect` lets a function value change its parameter types.
+pub const KNOWN_FN_CAST: &str = "typing-hole:expect-casts-function-argument-types";
+
+pub const FN_CAST_SOURCE: &str = "fn inc(x: Int) -> Int {\n  x + 1\n}\n\npub fn entry(a: Int) -> Int {\n  let d: Data = a\n  expect f: fn(Data) -> Int = inc\n  f(d)\n}\n";
+
+fn probe_fn_cast(st: &mut Stats) -> CheckResult {
+    st.eval();
+    let input = json!({"source": FN_CAST_SOURCE, "args": ["I 1"]});
+    match c01::compile_entry(FN_CAST_SOURCE, Tracing::All(TraceLevel::Silent)) {
+        CompileOutcome::Ok(c) => {
+            let (out, _, _) = aik::eval_with_args(&c.program, &[uplc::ast::Data::integer(1.into())]);
+            match out {
+                Outcome::Error(k, detail) if FORBIDDEN.contains(&k.as_str()) => Err(Failure::new(KNOWN_FN_CAST, json!({"input": input, "error": detail}))),
+                _ => Ok(()),
+            }
+        }
+        // rejected by the checker: the hole is closed
+        _ => Ok(()),
+    }
+}
+
 pub fn run(cx: &mut Cx) -> String {
     let tier = cx.tier;
     cx.shrink_iters = 0;
@@ -173,5 +194,8 @@ pub fn run(cx: &mut Cx) -> String {
         });
     }
     cx.prop("constructors-as-functions", tier.of(6_000, 150_000), 40, judge_ctor_as_function);
+    if !cx.is_replay() && cx.worker == 0 {
+        cx.direct("known-finding-probe:expect-casts-function-arguments", &json!({"source": FN_CAST_SOURCE}), probe_fn_cast);
+    }
     RULE.to_string()
 }
